@@ -36,6 +36,7 @@ type c13Case struct {
 	Present bool   `json:"present"`
 	Other   bool   `json:"other"`
 	Dflt    any    `json:"dflt"`
+	Ct      string `json:"ct"`
 }
 
 func docDigest(d *openapi3.T) string {
@@ -110,7 +111,7 @@ func c13Run(c *Case) []any {
 			}
 		}
 		bodyText = taggedToJSONText(tc.V)
-		hdr.Set("Content-Type", "application/json")
+		hdr.Set("Content-Type", tc.Ct)
 	} else {
 		method = "GET"
 		var sch map[string]any
